@@ -21,7 +21,29 @@ global size_of usize == 8;
 //@ end
 //@ extract cas_object/src/cas_object_format.rs type CasObjectIdent
 //@ end
+//@ extract cas_object/src/cas_object_format.rs const CAS_OBJECT_FORMAT_IDENT
+//@ end
+//@ extract cas_object/src/cas_object_format.rs const CAS_OBJECT_FORMAT_VERSION_V0
+//@ end
+//@ extract cas_object/src/cas_object_format.rs const CAS_OBJECT_FORMAT_IDENT_HASHES
+//@ end
+//@ extract cas_object/src/cas_object_format.rs const CAS_OBJECT_FORMAT_IDENT_BOUNDARIES
+//@ end
+//@ extract cas_object/src/cas_object_format.rs const CAS_OBJECT_FORMAT_VERSION
+//@ end
+//@ extract cas_object/src/cas_object_format.rs const CAS_OBJECT_FORMAT_HASHES_VERSION
+//@ end
+//@ extract cas_object/src/cas_object_format.rs const CAS_OBJECT_FORMAT_BOUNDARIES_VERSION_NO_UNPACKED_INFO
+//@ end
 //@ extract cas_object/src/cas_object_format.rs const CAS_OBJECT_FORMAT_BOUNDARIES_VERSION
+//@ end
+//@ extract merkledb/src/constants.rs const TARGET_CDC_CHUNK_SIZE
+//@ end
+//@ extract merkledb/src/constants.rs const IDEAL_CAS_BLOCK_SIZE
+//@ end
+//@ extract cas_object/src/cas_object_format.rs const AVERAGE_NUM_CHUNKS_PER_XORB
+//@ end
+//@ extract cas_object/src/cas_object_format.rs struct CasObjectInfoV0
 //@ end
 //@ extract cas_object/src/cas_object_format.rs struct CasObjectInfoV1
 //@ end
@@ -53,6 +75,8 @@ pub enum SeekFrom { Start(u64), End(i64), Current(i64) }
 pub trait Read {
     spec fn bytes(&self) -> Seq<u8>;
     spec fn pos(&self) -> nat;
+    // number of bytes consumed through this handle so far (what a countio::Counter wrapped around it reports)
+    spec fn nread(&self) -> nat;
 }
 pub trait Seek: Read {
     // std::io::Seek::seek: the new position is returned; content never changes; on error the position is unspecified
@@ -106,12 +130,115 @@ impl CasObject {
             final(reader).bytes() == old(reader).bytes(),
             r matches Ok(cas) ==> {
                 &&& spec_footer(old(reader).bytes()) == Some(cas)
-                // both parsers (v1, and v0 via from_v0) push exactly num_chunks entries into each table they fill
+                // `CasObjectInfoV1::deserialize` (under contract below: info_tables_ok) produces `info`, which is passed through unchanged
                 &&& footer_tables_ok(cas)
                 // `seek(End(-(4 + info_length)))` succeeded
                 &&& cas.info_length + 4 <= old(reader).bytes().len()
             },
     { unimplemented!() }
+}
+
+
+// ==== the footer parser CasObjectInfoV1::deserialize under contract: table lengths, arithmetic, bounded preallocation =========
+// countio::Counter around the reader: only the running byte count is modelled (the parsed values are unconstrained, i.e. the
+// proof holds for every byte string)
+pub struct Counter { pub ghost n: nat }
+impl Counter {
+    #[verifier::external_body]
+    fn new<R: Read>(r: &mut R) -> (c: Counter) ensures c.n == 0, final(r).bytes() == old(r).bytes() { unimplemented!() }
+    #[verifier::external_body]
+    fn reader_bytes(&self) -> (r: usize) requires self.n <= usize::MAX ensures r == self.n { unimplemented!() }
+}
+impl Read for Counter {
+    closed spec fn bytes(&self) -> Seq<u8> { Seq::empty() }
+    closed spec fn pos(&self) -> nat { 0 }
+    open spec fn nread(&self) -> nat { self.n }
+}
+// utils::serialization_utils read helpers: Ok ==> exactly that many bytes were consumed
+#[verifier::external_body]
+fn read_bytes<R: Read>(reader: &mut R, val: &mut [u8]) -> (r: Result<(), IoError>)
+    ensures final(val)@.len() == old(val)@.len(), r is Ok ==> final(reader).nread() == old(reader).nread() + old(val)@.len() { unimplemented!() }
+#[verifier::external_body]
+fn read_u8<R: Read>(reader: &mut R) -> (r: Result<u8, IoError>)
+    ensures r is Ok ==> final(reader).nread() == old(reader).nread() + 1 { unimplemented!() }
+#[verifier::external_body]
+fn read_u32<R: Read>(reader: &mut R) -> (r: Result<u32, IoError>)
+    ensures r is Ok ==> final(reader).nread() == old(reader).nread() + 4 { unimplemented!() }
+#[verifier::external_body]
+fn read_hash<R: Read>(reader: &mut R) -> (r: Result<MerkleHash, IoError>)
+    ensures r is Ok ==> final(reader).nread() == old(reader).nread() + 32 { unimplemented!() }
+
+spec fn info_tables_ok(s: CasObjectInfoV1) -> bool {
+    &&& s.chunk_hashes@.len() == s.num_chunks
+    &&& s.chunk_boundary_offsets@.len() == s.num_chunks
+    &&& (s.boundaries_version == CAS_OBJECT_FORMAT_BOUNDARIES_VERSION ==> s.unpacked_chunk_offsets@.len() == s.num_chunks)
+}
+spec fn info_v0_tables_ok(s: CasObjectInfoV0) -> bool {
+    s.chunk_hashes@.len() == s.num_chunks && s.chunk_boundary_offsets@.len() == s.num_chunks
+}
+impl CasObjectInfoV0 {
+    // the v0 parser (closure-based byte counting; not under contract): pushes num_chunks entries into both tables; consumes 52 + 36*num_chunks bytes
+    #[verifier::external_body]
+    fn deserialize_v0<R: Read>(reader: &mut R) -> (r: Result<(Self, u32), CasObjectError>)
+        ensures r matches Ok((s, _)) ==> info_v0_tables_ok(s) && final(reader).nread() == old(reader).nread() + 52 + 36 * s.num_chunks
+    { unimplemented!() }
+}
+// bounded allocation: `Vec::reserve` requests go through this stub, whose precondition is the allocation cap of C08
+// (9/8 of the average number of chunks of a xorb = 1152 entries), so every call site is an obligation
+pub open spec fn prealloc_cap() -> nat { 1152 }
+#[verifier::external_body]
+fn vx_reserve<T>(v: &mut Vec<T>, additional: usize)
+    requires additional <= prealloc_cap()
+    ensures final(v)@ == old(v)@
+{ v.reserve(additional) }
+
+//@ extract cas_object/src/cas_object_format.rs fn prealloc_num_chunks
+//@ ret r
+//@ contract
+    ensures /*@C08*/ r <= declared_size, /*@C08*/ r <= prealloc_cap(),
+//@ end
+
+impl CasObjectInfoV1 {
+    // `Default` for CasObjectInfoV1 is under contract in U-XORBIDX (empty tables); here only that fact is used
+    #[verifier::external_body]
+    fn default() -> (r: Self) ensures r.chunk_hashes@.len() == 0, r.chunk_boundary_offsets@.len() == 0, r.unpacked_chunk_offsets@.len() == 0 { unimplemented!() }
+    // from_v0 moves the two v0 tables, leaves the unpacked table empty and marks that with boundaries_version 0 (cas_object_format.rs:786-807)
+    #[verifier::external_body]
+    fn from_v0(src: CasObjectInfoV0) -> (r: Self)
+        ensures r.chunk_hashes@ == src.chunk_hashes@, r.chunk_boundary_offsets@ == src.chunk_boundary_offsets@, r.num_chunks == src.num_chunks,
+            r.unpacked_chunk_offsets@.len() == 0, r.boundaries_version == CAS_OBJECT_FORMAT_BOUNDARIES_VERSION_NO_UNPACKED_INFO
+    { unimplemented!() }
+
+//@ extract cas_object/src/cas_object_format.rs in `impl CasObjectInfoV1` fn deserialize
+//@ ret ret
+//@ rules R15 R4u
+//@ subst `countio::Counter::new(reader)` => `Counter::new(reader)` :: R11 stub type for the countio dependency
+//@ subst `s.chunk_hashes.reserve(` => `vx_reserve(&mut s.chunk_hashes, ` :: R11 stub for Vec::reserve carrying the allocation cap as precondition
+//@ subst `s.chunk_boundary_offsets.reserve(` => `vx_reserve(&mut s.chunk_boundary_offsets, ` :: R11 stub for Vec::reserve carrying the allocation cap as precondition
+//@ subst `s.unpacked_chunk_offsets.reserve(` => `vx_reserve(&mut s.unpacked_chunk_offsets, ` :: R11 stub for Vec::reserve carrying the allocation cap as precondition
+//@ contract
+        ensures
+            final(reader).bytes() == old(reader).bytes(),
+            // whatever the bytes: an accepted footer has tables of exactly num_chunks entries (the unpacked table only in boundaries version 1)
+            /*@C08*/ ret matches Ok((s, n)) ==> info_tables_ok(s),
+//@ loop 1
+            invariant
+                reader.bytes() == old(reader).bytes(),
+                s.chunk_hashes@.len() == vx_u, s.chunk_boundary_offsets@.len() == 0, s.unpacked_chunk_offsets@.len() == 0,
+                r.n == hash_section_begin_byte_offset + 12 + 32 * vx_u, hash_section_begin_byte_offset == 40,
+//@ loop 2
+            invariant
+                reader.bytes() == old(reader).bytes(),
+                s.chunk_hashes@.len() == num_chunks_2, num_chunks_2 == num_chunks_3, s.chunk_boundary_offsets@.len() == vx_u, s.unpacked_chunk_offsets@.len() == 0,
+                hash_section_begin_byte_offset == 40, boundary_section_begin_byte_offset == 52 + 32 * num_chunks_2,
+                r.n == boundary_section_begin_byte_offset + 12 + 4 * vx_u,
+//@ loop 3
+            invariant
+                reader.bytes() == old(reader).bytes(),
+                s.chunk_hashes@.len() == num_chunks_2, num_chunks_2 == num_chunks_3, s.chunk_boundary_offsets@.len() == num_chunks_3, s.unpacked_chunk_offsets@.len() == vx_u,
+                hash_section_begin_byte_offset == 40, boundary_section_begin_byte_offset == 52 + 32 * num_chunks_2,
+                r.n == boundary_section_begin_byte_offset + 12 + 4 * num_chunks_3 + 4 * vx_u,
+//@ end
 }
 
 // ---- merkle tree stub (merkledb): one file = the chunk list; root is an uninterpreted function of the (hash, length) list ----
@@ -209,7 +336,7 @@ impl CasObject {
                 chunk_pairs(hash_chunks@) =~= cas.decoded_list(b, idx as int),
 //@ before `let chunk_hash`
             let ghost hc0 = hash_chunks@;
-//@ before `cumulative_compressed_length +=`
+//@ after `length: chunk_uncompressed_length as usize, });`
             proof {
                 lemma_unpacked_sum_mono(cas, b, idx as int + 1, cas.info.num_chunks as int);
                 assert(hash_chunks@ =~= hc0.push(hash_chunks@[idx as int]));
